@@ -25,6 +25,8 @@ pub struct Hooks {
     /// cache dir -> outcomes of the next runs
     pub outcomes: Mutex<HashMap<PathBuf, VecDeque<RunOutcome>>>,
     pub runs_started: Mutex<HashMap<PathBuf, u64>>,
+    /// cache dir -> (stage, outcome) of the next run reaching that stage
+    pub stage_outcomes: Mutex<HashMap<PathBuf, (&'static str, RunOutcome)>>,
     pub sched: RwLock<Option<Arc<dyn SchedHooks>>>,
     pub rtr_fail: Mutex<VecDeque<bool>>,
     pub fs: RwLock<Option<Arc<dyn Fn(&'static str, &Path) + Send + Sync>>>,
@@ -86,6 +88,18 @@ impl Handler for Hooks {
 
     fn rtr_setup_fails(&self) -> bool {
         self.rtr_fail.lock().unwrap().pop_front().unwrap_or(false)
+    }
+
+    fn run_stage_outcome(&self, cache_dir: &Path, stage: &'static str) -> RunOutcome {
+        let mut map = self.stage_outcomes.lock().unwrap();
+        match map.get(cache_dir) {
+            Some((s, o)) if *s == stage => {
+                let o = *o;
+                map.remove(cache_dir);
+                o
+            }
+            _ => RunOutcome::Proceed
+        }
     }
 }
 
